@@ -110,7 +110,7 @@ def multAtom : IExp → IExp → IExp
     | .gt => mul (multAtom a c) b
     | .eq =>
       match b, c with
-      | pow x e1, pow _ e2 => mul a (pow x (e1 + e2))
+      | pow x e1, pow x' e2 => if x = x' then mul a (pow x (e1 + e2)) else mul (mul a b) c
       | _, _ => mul (mul a b) c
     | .lt => mul (mul a b) c
   | a, c =>
@@ -118,7 +118,7 @@ def multAtom : IExp → IExp → IExp
     | .gt => mul c a
     | .eq =>
       match a, c with
-      | pow x e1, pow _ e2 => pow x (e1 + e2)
+      | pow x e1, pow x' e2 => if x = x' then pow x (e1 + e2) else mul a c
       | _, _ => mul a c
     | .lt => mul a c
 
@@ -137,9 +137,12 @@ def multMono : IExp → IExp → IExp
   | mul (num c) b1, mul (num d) b2 => mul (num (c * d)) (multWo b1 b2)
   | x, y => mul x y
 
-/-- the coefficient-combining step of `norm_add_monomial`: `c1 * b + c2 * b`. -/
+/-- the coefficient-combining step of `norm_add_monomial`: `c1 * b + c2 * b` (the rewrite with
+`int_mul_add_distr_r` needs the same body on both sides; the Python raises otherwise). -/
 def combine : IExp → IExp → Option IExp
-  | mul (num c1) b, mul (num c2) _ => if c1 + c2 = 0 then none else some (mul (num (c1 + c2)) b)
+  | mul (num c1) b, mul (num c2) b' =>
+    if b = b' then (if c1 + c2 = 0 then none else some (mul (num (c1 + c2)) b))
+    else some (add (mul (num c1) b) (mul (num c2) b'))
   | m1, m2 => some (add m1 m2)
 
 /-- `norm_add_monomial` on `p + c`. -/
